@@ -13,6 +13,7 @@ from pathlib import Path
 from tqdm import tqdm
 
 from codebasin import CodeBase, file_parser, platform, preprocessor
+from codebasin._detail import verif
 from codebasin.language import FileLanguage
 from codebasin.platform import Platform
 from codebasin.preprocessor import CodeNode, Node, Visit
@@ -126,6 +127,15 @@ class ParserState:
                 filename=self._get_realpath(filename),
                 state=self,
             )
+            if verif.ENABLED:
+                verif.emit(
+                    "Visit",
+                    file=self._get_realpath(filename),
+                    kind=type(node).__name__,
+                    line=getattr(node, "start_line", 0),
+                    active=bool(active),
+                    plat=platform.name,
+                )
 
             # Ensure we only descend into one branch of an if/else/endif.
             if node.is_start_node():
@@ -142,7 +152,11 @@ class ParserState:
             else:
                 return Visit.NEXT_SIBLING
 
+        if verif.ENABLED:
+            verif.emit("Enter", file=self._get_realpath(filename))
         tree.visit(associator)
+        if verif.ENABLED:
+            verif.emit("Exit", file=self._get_realpath(filename))
 
 
 def find(
@@ -202,6 +216,19 @@ def find(
                 macro = preprocessor.macro_from_definition_string(definition)
                 file_platform.define(macro.name, macro)
 
+            if verif.ENABLED:
+                verif.emit(
+                    "BeginTU",
+                    plat=p,
+                    file=e["file"],
+                    defines=list(e["defines"]),
+                    defnames=sorted(file_platform._definitions),
+                    nmemo=len(file_platform.found_incl),
+                    nonce=len(file_platform._skip_includes),
+                    include_paths=list(file_platform._include_paths),
+                    include_files=list(e["include_files"]),
+                )
+
             # Process include files.
             # These modify the file_platform instance, but we throw away
             # the active nodes after processing is complete.
@@ -216,5 +243,7 @@ def find(
 
             # Process the file, to build a list of associate nodes
             state.associate(e["file"], file_platform)
+            if verif.ENABLED:
+                verif.emit("EndTU", plat=p, file=e["file"])
 
     return state
